@@ -510,15 +510,19 @@ def misidentification(F, p):
     Given folded spectrum, and probability p that one of the derived alleles is the actual ancestral allele
     Then refold to return folded spectrum
     """
-    F = TriF(np.zeros((len(F),len(F))))
+    # Masked entries hold no sites.
+    data = np.ma.filled(F, 0.)
+    F_new = np.zeros((len(F),len(F)))
     for ii in range(len(F))[1:-1]:
         for jj in range(len(F))[1:ii+1]:
             if ii+jj < len(F):
-                F[ii,jj] += (1 - p) * F[ii,jj]
-                F[len(F)-1-ii-jj,jj] += p/2. * F[ii,jj]
-                F[ii,len(F)-1-ii-jj] += p/2. * F[ii,jj]
+                F_new[ii,jj] += (1 - p) * data[ii,jj]
+                F_new[len(F)-1-ii-jj,jj] += p/2. * data[ii,jj]
+                F_new[ii,len(F)-1-ii-jj] += p/2. * data[ii,jj]
     
-    return F.fold()
+    F_new = TriSpectrum(F_new, extrap_x=getattr(F, 'extrap_x', None),
+                        extrap_t=getattr(F, 'extrap_t', None))
+    return F_new.fold_major()
     
 def fold(spectrum):
     """
